@@ -79,4 +79,37 @@ def multiSessionE (H : SList → Nat) (fuel : Nat) (ds : DS) (fillers : List Ses
 
 def sessionE (H : SList → Nat) (fuel : Nat) (ds : DS) (se : Session) : DS × List Install := multiSessionE H fuel ds [se]
 
+/-! ## Any schedule of concurrent writers
+
+With worker *processes* the fillers of a multi-writer call run concurrently: what reaches the disk is some interleaving of their
+effects.  A worker effect is a closed shard (its list is rewritten at once, `write_updates`) or a rewrite of a list as it
+stands (`_update_infos`). -/
+
+inductive WEff
+  | close (d : Dir) (sh : Shard)
+  | rewrite (d : Dir)
+deriving DecidableEq, Repr
+
+def closesOf : List WEff → Session
+  | [] => []
+  | .close d sh :: r => (d, [sh]) :: closesOf r
+  | .rewrite _ :: r => closesOf r
+
+def workersE : FS → List WEff → FS × List Install
+  | fs, [] => (fs, [])
+  | fs, .close d sh :: r =>
+    let x := workersE (appendShards fs d [sh]) r
+    (x.1, (d, leafDoc fs d [sh]) :: x.2)
+  | fs, .rewrite d :: r =>
+    let l : SList := (fs d).getD {}
+    let x := workersE (fs.set d l) r
+    (x.1, (d, l) :: x.2)
+
+/-- a multi-writer call under an arbitrary schedule `ws` of its workers' effects, then the parent's merges -/
+def concurrentCallE (H : SList → Nat) (fuel : Nat) (ds : DS) (ws : List WEff) : DS × List Install :=
+  let dirs := (closesOf ws).map (·.1)
+  let a := workersE ds.fs ws
+  let m := mergeSplitsE H fuel dirs (dedup (dirs.map (fun d => d.headD 0))) { ds with fs := a.1 }
+  (m.1, a.2 ++ m.2)
+
 end Sedpack.Tree
